@@ -138,7 +138,10 @@ def lru_shard(arg):
             continue
         evicted = sum(1 for o in ops if o[0] == 'P') > cap and len(items) == cap
         if evicted or any(o == 'KE' for o in outs):
-            res.nontrivial.add('lru:%d:%s' % (cap, ''.join(map(str, s))))
+            code = 0
+            for i in s:
+                code = code * 6 + i + 1
+            res.nontrivial.add(code * 4 + cap)
         batch.append((cap, NKEYS, ops, outs, dmp, items))
     lru_compare(batch, res, 'lru-exhaustive')
     return res
@@ -374,24 +377,31 @@ def lru_args(ctx):
     for cap in range(4):
         first = True
         for p in itertools.product(range(len(MUT)), repeat=2):
-            # capacity 0 keeps the cache empty and capacity 3 never evicts with 3 keys: one step shorter
-            args.append((cap, list(p), L if cap in (1, 2) else L - 1, first))
+            # capacity 0 keeps the cache empty, capacity 1 holds a single node and capacity 3 never
+            # evicts with 3 keys: one step shorter than capacity 2
+            args.append((cap, list(p), L if cap == 2 else L - 1, first))
             first = False
     return args, L
 
 
 def run(ctx):
+    import time
     res = Result()
     args, L = lru_args(ctx)
+    t0 = time.time()
     for r in pmap('harness.props.c15', 'lru_shard', args):
         res.merge(r)
-    nr = ctx.n(300, 6000)
+    t1 = time.time()
+    nr = ctx.n(200, 6000)
     for r in pmap('harness.props.c15', 'lru_random_shard', [(ctx.seed, i, nr) for i in range(16)]):
         res.merge(r)
-    nh = ctx.n(200, 6500)
+    t2 = time.time()
+    nh = ctx.n(190, 6500)
     for r in pmap('harness.props.c15', 'hist_shard', [(ctx.seed, i, nh, 25) for i in range(16)]):
         res.merge(r)
-    res.rule = ('container: every sequence over get/set x 3 keys of length <= %d (capacities 1, 2; one less for 0 and 3) followed by all reads, '
+    t3 = time.time()
+    res.notes.append('wall: lru-exhaustive %.1fs, lru-random %.1fs, loader histories %.1fs' % (t1 - t0, t2 - t1, t3 - t2))
+    res.rule = ('container: every sequence over get/set x 3 keys of length <= %d (capacity 2; one less for 0, 1 and 3) followed by all reads, '
                 'plus seeded random sequences over the whole alphabet (half of them 20-40 operations on capacities 4-5 with 6-8 keys, the rest <= 60 operations, 2-8 keys, capacities 0-7) compared after every step; non-trivial = an eviction or a miss occurred; '
                 % L)
     res.samples = res.samples[:6]
